@@ -197,7 +197,7 @@ def run(ctx):
             layout = rng.choice((("site", 1), ("site", 3), ("grid", 2, 3), ("grid", 3, 2), ("grid", 1, 2), ("grid", 2, 1)))
             nt, nf, nd = rng.choice((1, 2, 3)), rng.choice((2, 3)), rng.choice((2, 4))
             ds = make_dataset(rng, layout, nt, nf, nd, ("data", "data", "zero", "nan", "span"), unsorted_dirs=(k % 3 == 0), time_step=rng.choice((30, 3600)))
-            if k % 3 == 1 and ds.sizes["time"] > 1:
+            if (k % 3 == 1 or (layout[0] == "site" and k % 2 == 0)) and ds.sizes["time"] > 1:
                 ds = ds.isel(time=list(range(ds.sizes["time"]))[::-1][:1] + list(range(ds.sizes["time"] - 1)))     # records not in chronological order
             ntime = rng.choice((None, 1, 2))
             gz = k % 4 == 1
